@@ -245,7 +245,7 @@ package obfs4
 //@   assert_at framing.NewDecoder [C06:key_split_client] seq(arg0) == sub(HKDF(seq(seed), T_KEY, M_EXPAND, 0, 144), 72, 144)
 //@   assert_at framing.NewEncoder [C02:keys_only_after_checks] err == nil && n >= 96 && n <= len(conn.receiveBuffer.content) + n
 //@   ensures [C02:keys_only_after_checks] conn.encoder == nil <==> conn.decoder == nil
-//@   ensures [C02:keys_installed] err == nil ==> conn.encoder != nil && conn.decoder != nil && encInv(conn.encoder) && decInv(conn.decoder) && conn.decoder.nextLength == 0
+//@   ensures [C02:keys_installed] err == nil ==> conn.encoder != nil && conn.decoder != nil && encInv(conn.encoder) && decInv(conn.decoder)
 //@   ensures [C10:handshake_rx_bound] len(conn.receiveBuffer.content) < 8192 + 8192
 //@   ensures [C01:no_stranded_frame] err == nil ==> needMore(conn.decoder, conn.receiveBuffer) && rxInv(conn) && distOK(conn)
 //@   ensures hsConn(conn)
